@@ -279,6 +279,152 @@ def exception_scenarios():
     return out
 
 
+# ---------------------------------------------------------------------------------------------------
+# C08: "... delivered to the innermost enclosing handler, with the handling function's variables intact": a closure that
+# captured a variable above the handler's stack height (a local of the try body, or of a callee one or two frames up) has
+# escaped before the exception; the handler then declares locals of its own (which reuse those stack slots) and the
+# closure is called from the catch block, from the finally block and after the try statement
+def handler_intact_scenarios():
+    out = []
+    sites = ["body", "callee", "callee2", "callee-builtin", "body-builtin"]
+    shapes = ["catch", "catch-finally", "finally-outer-catch"]
+    for site, shape, kind, npre, nworker in itertools.product(sites, shapes, ("read", "write"), (0, 1, 2), (0, 2)):
+        if nworker and site.startswith("body") and npre == 1:
+            continue
+        b = Builder()
+        b.var("saved", lit(None))
+
+        def capture():
+            for i in range(nworker):
+                b.var("wp%d" % i, lit(300 + i))
+            b.var("count", lit(100))
+            if kind == "read":
+                b.expr(b.assign("saved", b.lam([], lambda: b.v("count"))))
+                b.expr(b.assign("count", lit(150)))
+            else:
+                b.expr(b.assign("saved", b.lam([], lambda: b.assign("count", bin_("+", b.v("count"), lit(1))))))
+
+        def fail(builtin):
+            if builtin:
+                b.print(idx(vec(lit(1)), lit(5)))
+            else:
+                b.throw(lit("failed"))
+
+        b.fn("worker", [])
+        capture()
+        fail(site == "callee-builtin")
+        b.end()
+        b.fn("middle", [])
+        b.var("m", lit("m0"))
+        b.expr(call(b.v("worker")))
+        b.print(b.v("m"))
+        b.end()
+        b.fn("handle", [])
+        for i in range(npre):
+            b.var("before%d" % i, lit("B%d" % i))
+        if shape == "finally-outer-catch":
+            b.try_()
+        b.try_()
+        if site in ("body", "body-builtin"):
+            capture()
+            fail(site == "body-builtin")
+        elif site == "callee2":
+            b.expr(call(b.v("middle")))
+        else:
+            b.expr(call(b.v("worker")))
+        b.print(lit("not reached"))
+
+        def handler_body(tag):
+            b.var("label", lit("retry-" + tag))
+            b.var("attempts", lit(1))
+            b.print(call(b.v("saved")))
+            b.print(call(b.v("saved")))
+            b.print(b.v("attempts"))
+            b.print(b.v("label"))
+            for i in range(npre):
+                b.print(b.v("before%d" % i))
+
+        if shape == "catch":
+            b.catch("err"); handler_body("c"); b.print(bin_("==", b.v("err"), lit("failed"))); b.end()
+        elif shape == "catch-finally":
+            b.catch("err"); handler_body("c"); b.print(bin_("==", b.v("err"), lit("failed"))); b.finally_(); handler_body("f"); b.end()
+        else:
+            b.finally_(); handler_body("f"); b.end()
+            b.catch("outer"); handler_body("o"); b.end()
+        b.var("after", lit("A0"))
+        b.print(call(b.v("saved")))
+        b.print(b.v("after"))
+        for i in range(npre):
+            b.print(b.v("before%d" % i))
+        b.end()
+        b.expr(call(b.v("handle")))
+        b.print(call(b.v("saved")))
+        out.append(("hint:%s:%s:%s:%d:%d" % (site, shape, kind, npre, nworker), b.toks))
+    return out
+
+
+# ---------------------------------------------------------------------------------------------------
+# C08: ANY value can be thrown - nil, false, 0, the empty string, containers, classes, closures, instances - and is delivered and
+# re-raised after finally blocks exactly like a string ("nothing pending" must not be confused with a falsy / nil exception)
+def thrown_value_scenarios():
+    out = []
+    values = ["nil", "false", "zero", "empty-string", "vec", "empty-tuple", "map", "range", "class", "closure", "error-instance", "error-subclass-instance",
+              "user-instance", "number"]
+    shapes = ["catch", "finally-then-outer-catch", "two-finally-then-catch", "catch-finally", "callee-finally", "uncaught-through-finally", "uncaught",
+              "finally-in-loop", "rethrow-same"]
+    for val, shape in itertools.product(values, shapes):
+        b = Builder()
+        b.class_("Mine", ctor="new"); b.end()
+        b.class_("MyErr", sup="ValueError", ctor="new"); b.end()
+        b.fn("helper", []); b.ret(lit(1)); b.end()
+
+        def thrown():
+            return {"nil": lit(None), "false": lit(False), "zero": lit(0), "empty-string": lit(""), "vec": vec(lit(1)), "empty-tuple": tup(),
+                    "map": mapnode((lit("k"), lit(1))), "range": rng(0, 2), "class": b.v("Mine"), "closure": b.v("helper"),
+                    "error-instance": inv(b.v("Error"), "new", lit("ve")), "error-subclass-instance": inv(b.v("MyErr"), "new"), "user-instance": inv(b.v("Mine"), "new"), "number": lit(7)}[val]
+
+        def fin(text):
+            # the finally block allocates while the exception is waiting to be re-raised (it must survive any collection here)
+            b.var("junk", vec(tup(lit(text), lit(1)), vec(lit(2))))
+            b.print(tup(lit(text), idx(b.v("junk"), lit(1))))
+
+        def show(name):
+            b.print(tup(lit("caught"), call(b.v("type"), b.v(name)), bin_("==", b.v(name), lit(None)), bin_("==", b.v(name), lit(False))))
+            if val not in ("user-instance", "error-instance", "error-subclass-instance", "closure"):
+                b.print(b.v(name))
+
+        b.fn("main", [])
+        b.var("before", lit("B"))
+        if shape == "catch":
+            b.try_(); b.throw(thrown()); b.catch("e"); show("e"); b.end()
+        elif shape == "finally-then-outer-catch":
+            b.try_(); b.try_(); b.throw(thrown()); b.finally_(); fin("fin"); b.end(); b.print(lit("skipped")); b.catch("e"); show("e"); b.end()
+        elif shape == "two-finally-then-catch":
+            b.try_(); b.try_(); b.try_(); b.throw(thrown()); b.finally_(); fin("f1"); b.end(); b.print(lit("skipped1")); b.finally_(); fin("f2"); b.end()
+            b.print(lit("skipped2")); b.catch("e"); show("e"); b.end()
+        elif shape == "catch-finally":
+            b.try_(); b.throw(thrown()); b.catch("e"); show("e"); b.finally_(); fin("fin"); b.end()
+        elif shape == "callee-finally":
+            b.fn("inner", []); b.try_(); b.throw(thrown()); b.finally_(); fin("inner fin"); b.end(); b.print(lit("inner skipped")); b.ret(lit("normal")); b.end()
+            b.try_(); b.print(call(b.v("inner"))); b.print(lit("skipped")); b.catch("e"); show("e"); b.end()
+        elif shape == "uncaught-through-finally":
+            b.try_(); b.throw(thrown()); b.finally_(); fin("fin"); b.end(); b.print(lit("skipped"))
+        elif shape == "uncaught":
+            b.throw(thrown())
+        elif shape == "finally-in-loop":
+            b.try_()
+            b.for_("i", rng(0, 3)); b.try_(); b.if_(bin_("==", b.v("i"), lit(1))); b.throw(thrown()); b.end(); b.print(b.v("i")); b.finally_(); fin("loop fin"); b.print(tup(lit("fin"), b.v("i"))); b.end(); b.end()
+            b.catch("e"); show("e"); b.end()
+        else:
+            b.try_(); b.try_(); b.throw(thrown()); b.catch("e"); show("e"); b.throw(b.v("e")); b.end(); b.print(lit("skipped")); b.catch("e2"); show("e2"); b.end()
+        b.print(b.v("before"))
+        b.end()
+        b.expr(call(b.v("main")))
+        b.print(lit("done"))
+        out.append(("thrown:%s:%s" % (val, shape), b.toks))
+    return out
+
+
 def exit_path_scenarios():
     """every way of LEAVING a try body / catch block / finally block x what the try statement has x what ran
     in the body before (nothing, a completed inner try statement, an inner try that caught) x the wrapper the
@@ -540,6 +686,39 @@ def expression_form_scenarios():
         else:
             b.expr(setf(b.v("o"), "n", lit(1))); b.print(csetf(b.v("o"), "n", "+", bin_("*", get(b.v("o"), "n"), lit(10)))); b.print(get(b.v("o"), "n"))
         out.append(("expr:misc:%d" % variant, b.toks))
+    # interpolation: every part is evaluated AND converted to text before the next part is evaluated (left to right, once)
+    for variant, where in itertools.product(range(8), ("print", "var", "arg")):
+        b = Builder()
+        b.var("log", vec())
+        b.fn("t", ["x"]); b.expr(inv(b.v("log"), "push", b.v("x"))); b.ret(b.v("x")); b.end()
+        b.fn("show", ["s"]); b.print(tup(lit("show"), b.v("s"))); b.ret(b.v("s")); b.end()
+        b.var("v", vec(lit(1), lit(2))); b.var("m", mapnode((lit("k"), lit(1)))); b.var("a", lit(1))
+        if variant == 0:
+            e = {"k": "interp", "parts": [b.v("v"), lit(" then "), {"k": "setidx", "o": b.v("v"), "i": lit(0), "e": lit(9)}, lit(" now "), b.v("v")]}
+        elif variant == 1:
+            e = {"k": "interp", "parts": [b.v("v"), lit("|"), inv(b.v("v"), "push", lit(3)), lit("|"), b.v("v"), lit("|"), inv(b.v("v"), "pop"), lit("|"), b.v("v")]}
+        elif variant == 2:
+            e = {"k": "interp", "parts": [b.v("m"), lit("|"), inv(b.v("m"), "insert", lit("k"), lit(2)), lit("|"), b.v("m")]}
+        elif variant == 3:
+            e = {"k": "interp", "parts": [b.v("a"), lit("|"), b.assign("a", lit(5)), lit("|"), b.v("a")]}
+        elif variant == 4:
+            e = {"k": "interp", "parts": [call(b.v("t"), lit(1)), call(b.v("t"), lit("two")), lit("-"), call(b.v("t"), vec(lit(3)))]}
+        elif variant == 5:
+            e = {"k": "interp", "parts": [tup(b.v("v"), lit(0)), lit("|"), inv(b.v("v"), "push", lit(7)), lit("|"), tup(b.v("v"), lit(0))]}
+        elif variant == 6:
+            e = {"k": "interp", "parts": [b.v("v"), {"k": "interp", "parts": [lit("<"), inv(b.v("v"), "pop"), lit(">")]}, b.v("v")]}
+        else:
+            e = {"k": "interp", "parts": [b.v("v"), lit("|"), bin_("+", lit("s"), lit(1)), lit("|"), inv(b.v("v"), "push", lit(4))]}
+        b.try_()
+        if where == "print":
+            b.print(e)
+        elif where == "var":
+            b.var("r", e); b.print(b.v("r"))
+        else:
+            b.expr(call(b.v("show"), e))
+        b.catch("err"); b.print(tup(lit("error"), call(b.v("type"), b.v("err")))); b.end()
+        b.print(tup(b.v("v"), b.v("m"), b.v("a"), b.v("log")))
+        out.append(("expr:interp:%d:%s" % (variant, where), b.toks))
     return out
 
 
@@ -1121,6 +1300,195 @@ def iteration_scenarios(rng, count):
 
 # ---------------------------------------------------------------------------------------------------
 # C17: which error, raised where in which call chain, caught or not
+# ---------------------------------------------------------------------------------------------------
+# C18 / C05: more than RANGE_CACHE_SIZE (8) distinct ranges in one interpreter.  Ranges are cached objects and `==` on ranges is
+# identity, so which evaluations of `a..b` are equal - and, above all, that every evaluation denotes the bounds written - depends
+# on the cache's replacement discipline (Machine.tla: `rc`).
+def range_cache_scenarios():
+    out = []
+    for variant, n, wrap in itertools.product(range(7), (7, 8, 9, 12), ("top", "fn")):
+        b = Builder()
+        if wrap == "fn":
+            b.fn("main", [])
+        if variant == 0:
+            # triangular loops: row k iterates 0..k; every row must list its own bounds
+            b.for_("k", rng(1, n + 1))
+            b.var("row", vec())
+            b.for_("j", {"k": "range", "l": lit(0), "r": b.v("k")}); b.expr(inv(b.v("row"), "push", b.v("j"))); b.end()
+            b.print(tup(b.v("k"), b.v("row")))
+            b.end()
+        elif variant == 1:
+            # identity of a range held in a variable against a new evaluation, before and after n other ranges were created
+            b.var("keep", rng(0, 3))
+            b.print(bin_("==", b.v("keep"), rng(0, 3)))
+            b.for_("k", rng(10, 10 + n)); b.var("r", {"k": "range", "l": b.v("k"), "r": bin_("+", b.v("k"), lit(1))}); b.end()
+            b.print(bin_("==", b.v("keep"), rng(0, 3)))
+            b.print(bin_("==", rng(0, 3), rng(0, 3)))
+            b.print(inv(inv(b.v("keep"), "iter"), "collect"))
+        elif variant == 2:
+            # descending ranges after the cache has been filled with ascending ones
+            b.for_("k", rng(1, n + 1)); b.var("r", {"k": "range", "l": lit(0), "r": b.v("k")}); b.end()
+            b.for_("k", rng(1, 4))
+            b.print(inv(inv({"k": "range", "l": b.v("k"), "r": lit(0)}, "iter"), "collect"))
+            b.end()
+        elif variant == 3:
+            # a vector of n + 2 ranges built one by one, then each printed, iterated and compared with its re-evaluation
+            b.var("rs", vec())
+            b.for_("k", rng(0, n + 2)); b.expr(inv(b.v("rs"), "push", {"k": "range", "l": b.v("k"), "r": bin_("*", b.v("k"), lit(2))})); b.end()
+            b.for_("k", rng(0, n + 2))
+            b.print(tup(idx(b.v("rs"), b.v("k")), inv(inv(idx(b.v("rs"), b.v("k")), "iter"), "collect"),
+                        bin_("==", idx(b.v("rs"), b.v("k")), {"k": "range", "l": b.v("k"), "r": bin_("*", b.v("k"), lit(2))})))
+            b.end()
+        elif variant == 4:
+            # slicing with more than 8 different ranges
+            b.var("s", tup(*[lit(chr(97 + i)) for i in range(16)])); b.var("v", vec(*[lit(i) for i in range(14)]))
+            b.for_("k", rng(0, n + 1))
+            b.print(tup(idx(b.v("s"), {"k": "range", "l": b.v("k"), "r": bin_("+", b.v("k"), lit(2))}), idx(b.v("v"), {"k": "range", "l": lit(1), "r": bin_("+", b.v("k"), lit(1))}),
+                        idx(b.v("v"), {"k": "range", "l": un("-", b.v("k")), "r": lit(-1)})))
+            b.end()
+        elif variant == 5:
+            # ranges as map keys (hashed by identity) while the cache turns over
+            b.var("m", mapnode()); b.var("first", rng(0, 1))
+            b.expr(inv(b.v("m"), "insert", b.v("first"), lit("first")))
+            b.for_("k", rng(1, n + 1)); b.expr(inv(b.v("m"), "insert", {"k": "range", "l": lit(0), "r": bin_("+", b.v("k"), lit(1))}, b.v("k"))); b.end()
+            b.print(inv(b.v("m"), "len"))
+            b.print(tup(inv(b.v("m"), "get", b.v("first")), inv(b.v("m"), "has_key", rng(0, 1)), inv(b.v("m"), "has_key", rng(0, 2))))
+        else:
+            # a cache hit does not make an entry younger: 0..1 is re-evaluated between the creations and still leaves first
+            b.var("a", rng(0, 1))
+            b.for_("k", rng(1, n)); b.var("r", {"k": "range", "l": lit(0), "r": bin_("+", b.v("k"), lit(1))}); b.var("again", rng(0, 1)); b.end()
+            b.print(bin_("==", b.v("a"), rng(0, 1)))
+            b.print(bin_("==", rng(0, 2), rng(0, 2)))
+        if wrap == "fn":
+            b.end()
+            b.expr(call(b.v("main")))
+        out.append(("rcache:%d:%d:%s" % (variant, n, wrap), b.toks))
+    return out
+
+
+# ---------------------------------------------------------------------------------------------------
+# C18: "break and continue leave no iteration state behind": loop bodies whose per-pass variables are captured by closures
+# that outlive the pass; the pass is left by break / continue / normal end / return; a LATER loop (whose hidden iterator
+# and loop variable reuse the same stack slots) must be unaffected when the old closures are called and written through
+def loop_state_scenarios():
+    out = []
+    iterables = {"vec": lambda b: vec(lit(10), lit(20), lit(30), lit(40)), "range": lambda b: rng(0, 4), "range-desc": lambda b: rng(4, 0),
+                 "tuple": lambda b: tup(lit("p"), lit("q"), lit("r"), lit("s")), "adapter": lambda b: inv(inv(vec(lit(1), lit(2), lit(3), lit(4)), "iter"), "map", b.lam(["x"], lambda: bin_("*", b.v("x"), lit(3))))}
+    for itk, exit_, where, wrap, npad in itertools.product(sorted(iterables), ("break", "continue", "fall", "return"), ("first", "second", "last"), ("top", "fn"), (0, 2)):
+        if exit_ == "return" and wrap != "fn":
+            continue
+        if exit_ == "fall" and where != "first":
+            continue
+        b = Builder()
+        b.var("gets", vec()); b.var("sets", vec())
+        if wrap == "fn":
+            b.fn("main", [])
+        b.var("count", lit(0))
+        b.for_("x", iterables[itk](b))
+        for i in range(npad):
+            b.var("pad%d" % i, lit(500 + i))
+        b.var("mine", tup(lit("pass"), b.v("x")))
+        b.expr(inv(b.v("gets"), "push", b.lam([], lambda: b.v("mine"))))
+        b.expr(inv(b.v("sets"), "push", b.lam(["nv"], lambda: b.assign("mine", b.v("nv")))))
+        b.expr(b.assign("count", bin_("+", b.v("count"), lit(1))))
+        if exit_ != "fall":
+            b.if_(bin_("==", b.v("count"), lit({"first": 1, "second": 2, "last": 4}[where])))
+            if exit_ == "break":
+                b.break_()
+            elif exit_ == "continue":
+                b.continue_()
+            else:
+                b.ret(lit("returned"))
+            b.end()
+        b.var("tail", tup(lit("tail"), b.v("x")))
+        b.expr(inv(b.v("gets"), "push", b.lam([], lambda: b.v("tail"))))
+        b.end()
+        # a later loop over another iterable: its iterator and loop variable take the slots the first loop used
+        b.for_("ch", vec(lit("u"), lit("v"), lit("w")))
+        b.var("k", lit(0))
+        b.for_("g", b.v("gets")); b.expr(b.assign("k", bin_("+", b.v("k"), lit(1)))); b.end()
+        b.expr(call(idx(b.v("sets"), lit(0)), tup(lit("rewritten at"), b.v("ch"))))
+        b.print(tup(b.v("ch"), b.v("k"), call(idx(b.v("gets"), lit(0)))))
+        b.end()
+        b.for_("g", b.v("gets")); b.print(call(b.v("g"))); b.end()
+        if wrap == "fn":
+            b.ret(lit("end of main"))
+            b.end()
+            b.print(call(b.v("main")))
+            b.for_("g", b.v("gets")); b.print(call(b.v("g"))); b.end()
+        out.append(("loopstate:%s:%s:%s:%s:%d" % (itk, exit_, where, wrap, npad), b.toks))
+    return out
+
+
+# ---------------------------------------------------------------------------------------------------
+# C16 / C01 / C09: lifetimes around fibers.  A fiber B is run from the main script, from a fiber A, or from a fiber nested in A; it
+# returns, is abandoned while suspended, is resumed to its end, or fails into its caller's handler; then B and / or A are kept or
+# dropped, optionally with a closure over one of B's variables kept instead.  What is reachable afterwards (Machine.tla: Live) is
+# compared with what survives a forced collection: a finished or dropped fiber must not be kept by stale links (caller, owner
+# of a closed variable, parked exception), and a kept one must keep exactly what it can still reach.
+def fiber_lifetime_scenarios():
+    out = []
+    for caller, ending, keepb, keepa, esc in itertools.product(("main", "fiber", "nested"), ("returns", "abandoned", "resumed", "fails"),
+                                                             (False, True), (False, True), (False, True)):
+        if caller == "main" and keepa:
+            continue
+        b = Builder()
+        b.var("keepb", lit(None)); b.var("keepa", lit(None)); b.var("keepc", lit(None)); b.var("got", vec())
+        b.fn("body_b", ["arg"])
+        b.var("w", vec(lit("w"), b.v("arg")))
+        b.var("other", tup(lit("other"), vec(lit(0))))
+        if esc:
+            b.expr(b.assign("keepc", b.lam([], lambda: b.v("w"))))
+        if ending in ("abandoned", "resumed"):
+            b.expr(inv(b.v("got"), "push", inv(b.v("Fiber"), "yield", tup(lit("yielded"), b.v("w")))))
+        if ending == "fails":
+            b.throw(tup(lit("failure"), b.v("other")))
+        b.ret(tup(lit("result"), b.v("other")))
+        b.end()
+
+        def run_b():
+            b.var("fb", inv(b.v("Fiber"), "new", b.v("body_b")))
+            if ending == "fails":
+                b.try_(); b.expr(inv(b.v("got"), "push", inv(b.v("fb"), "call", lit(1)))); b.catch("e"); b.expr(inv(b.v("got"), "push", tup(lit("caught"), b.v("e")))); b.end()
+            else:
+                b.expr(inv(b.v("got"), "push", inv(b.v("fb"), "call", lit(1))))
+                if ending == "resumed":
+                    b.expr(inv(b.v("got"), "push", inv(b.v("fb"), "call", lit("again"))))
+            if keepb:
+                b.expr(b.assign("keepb", b.v("fb")))
+            b.var("after", vec(lit("after")))
+
+        b.fn("main", [])
+        if caller == "main":
+            run_b()
+        else:
+            b.fn("body_a", [])
+            b.var("mine", vec(lit("a local")))
+            if caller == "nested":
+                b.fn("body_mid", []); b.var("midlocal", vec(lit("mid"))); run_b(); b.ret(b.v("midlocal")); b.end()
+                b.var("fm", inv(b.v("Fiber"), "new", b.v("body_mid")))
+                b.expr(inv(b.v("got"), "push", inv(b.v("fm"), "call")))
+            else:
+                run_b()
+            b.ret(b.v("mine"))
+            b.end()
+            b.var("fa", inv(b.v("Fiber"), "new", b.v("body_a")))
+            b.expr(inv(b.v("got"), "push", inv(b.v("fa"), "call")))
+            if keepa:
+                b.expr(b.assign("keepa", b.v("fa")))
+        b.end()
+        b.expr(call(b.v("main")))
+        b.print(b.v("got"))
+        b.print(tup(bin_("==", b.v("keepb"), lit(None)), bin_("==", b.v("keepa"), lit(None)), bin_("==", b.v("keepc"), lit(None))))
+        if esc:
+            b.print(call(b.v("keepc")))
+        if keepb:
+            b.print(inv(b.v("keepb"), "has_finished"))
+        b.expr(b.assign("got", lit(None)))
+        out.append(("flife:%s:%s:%d:%d:%d" % (caller, ending, int(keepb), int(keepa), int(esc)), b.toks))
+    return out
+
+
 def error_scenarios(rng, count):
     out = []
     kinds = ["type-add", "type-call", "name", "index", "value-derives", "attribute", "runtime-pop", "throw-string", "throw-number",
@@ -1145,6 +1513,9 @@ def error_scenarios(rng, count):
         # the failure happens in a finally block while another exception is waiting (not for the recursion kind: 64 nested
         # finally blocks each interrupted by the overflow are the subject of C08's findings, not of error reporting)
         in_finally = rng.random() < 0.2 and kind != "stack-overflow"
+        # the failing statement sits in the body of a try statement that has a finally block but no catch (here, and / or in callers):
+        # the exception passes THROUGH finally blocks on its way out, and the report must still name the failing statement's line
+        through = "none" if (in_finally or kind == "stack-overflow") else rng.choice(["none", "none", "self", "caller", "both"])
         b.class_("Host", ctor="new")
         for i, link in enumerate(chain):
             if link in ("method", "bound"):
@@ -1187,6 +1558,8 @@ def error_scenarios(rng, count):
         def fail():
             if in_finally:
                 b.try_(); b.throw(lit("superseded")); b.finally_(); b.var("infin", lit("fin local")); fail0(); b.end()
+            elif through in ("self", "both"):
+                b.try_(); b.var("intry", lit("try local")); fail0(); b.print(lit("unreached")); b.finally_(); b.print(tup(lit("finally of the failing function"), b.v("local"))); b.end()
             else:
                 fail0()
         if caught_at == n:
@@ -1215,6 +1588,8 @@ def error_scenarios(rng, count):
                 b.var("fb", inv(b.v("Fiber"), "new", b.v("step%d" % (i + 1)))); e = inv(b.v("fb"), "call", b.v("arg"))
             if caught_at == i and n > 0:
                 b.try_(); b.print(e); b.catch("e"); b.print(tup(lit("caught"), call(b.v("type"), b.v("e")), b.v("keep%d" % i))); b.end()
+            elif through in ("caller", "both") and i % 2 == 0:
+                b.try_(); b.print(e); b.finally_(); b.print(tup(lit("finally of a caller"), b.v("keep%d" % i))); b.end()
             else:
                 b.print(e)
             b.ret(lit("ok%d" % i))
